@@ -333,9 +333,9 @@ def observational(ctx, prof, pfile, progs, wd, ncorpus):
 # real CLI binary as well, so that the change is judged by its behaviour.
 REPLICATED = {
     "cli/src/cli/commands/run.rs": {
-        "collect_required_modules": "6eeecd81c93b", "collect_required_modules_rec": "8d184b482f55",
+        "collect_required_modules": "3fec969dc431", "collect_required_modules_rec": "12a4c18afac7",
         "load_required_modules": "d0c8dab1f6cf", "try_load_std_module": "c650a6347edd",
-        "run_avbc_file": "cdd5367c379a", "run_aasm_file": "f5d9b8031486", "reconstruct_function_hierarchy": "9553f3918c50"},
+        "run_avbc_file": "53113afd2206", "run_aasm_file": "a296cc3f32ae", "reconstruct_function_hierarchy": "9553f3918c50"},
 }
 
 
@@ -416,34 +416,119 @@ def cli_sample(ctx, progs, clean, wd, limit):
     ctx.cov["evaluations"] += 3 * res["compared"]
 
 
+def project_layouts():
+    """generated multi-file projects: (name, files, entry, cwd) - where the modules live relative to the entry file,
+    how they are named in `needs`, and from where the CLI is started. The saved program must find them again."""
+    io = "needs std.io\n"
+    inc = "pub fn inc(x) { return x + 1 }\n"
+    L = []
+    def add(name, files, entry="main.aelys", cwd="."):
+        L.append((name, files, entry, cwd))
+    add("flat-module", {"main.aelys": io + "needs helpers\nio.println(helpers.inc(41))\n", "helpers.aelys": inc})
+    add("nested-import", {"main.aelys": io + "needs utils.helpers\nio.println(helpers.inc(41))\n", "utils/helpers.aelys": inc})
+    add("nested-import-depth3", {"main.aelys": io + "needs a.b.c\nio.println(c.inc(41))\n", "a/b/c.aelys": inc})
+    add("nested-import-in-function", {"main.aelys": io + "needs utils.helpers\nfn go(n) { return helpers.inc(n) }\nio.println(go(41))\n", "utils/helpers.aelys": inc})
+    add("nested-import-alias", {"main.aelys": io + "needs utils.helpers as h\nio.println(h.inc(41))\n", "utils/helpers.aelys": inc})
+    add("nested-import-symbol", {"main.aelys": io + "needs inc from utils.helpers\nio.println(inc(41))\n", "utils/helpers.aelys": inc})
+    add("flat-import-symbol", {"main.aelys": io + "needs inc from helpers\nio.println(inc(41))\n", "helpers.aelys": inc})
+    add("std-import-symbol", {"main.aelys": io + "needs sqrt, pow from std.math\nio.println(sqrt(pow(2.0, 4.0)))\n"})
+    add("nested-two-modules", {"main.aelys": io + "needs utils.helpers\nneeds utils.more\nio.println(helpers.inc(more.dec(42)))\n",
+                               "utils/helpers.aelys": inc, "utils/more.aelys": "pub fn dec(x) { return x - 1 }\n"})
+    add("directory-module", {"main.aelys": io + "needs utils\nio.println(utils.inc(41))\n", "utils/mod.aelys": inc})
+    add("module-needs-nested", {"main.aelys": io + "needs lib\nio.println(lib.go(41))\n", "lib.aelys": "needs sub.deep\npub fn go(n) { return deep.inc(n) }\n", "sub/deep.aelys": inc})
+    add("nested-module-needs-sibling", {"main.aelys": io + "needs utils.helpers\nio.println(helpers.inc2(40))\n",
+                                        "utils/helpers.aelys": "needs utils.base\npub fn inc2(x) { return base.inc(base.inc(x)) }\n", "utils/base.aelys": inc})
+    # the same flat project started from elsewhere: the entry path has a directory component / is absolute
+    flat = {"proj/main.aelys": io + "needs helpers\nio.println(helpers.inc(41))\n", "proj/helpers.aelys": inc}
+    add("entry-in-subdirectory", flat, "proj/main.aelys")
+    add("entry-dot-slash", {"main.aelys": flat["proj/main.aelys"], "helpers.aelys": inc}, "./main.aelys")
+    add("entry-dotdot", dict(flat, **{"other/.keep": ""}), "../proj/main.aelys", "other")
+    add("entry-absolute", flat, "{abs}/proj/main.aelys")
+    add("entry-in-subdirectory-nested-import", {"proj/main.aelys": io + "needs utils.helpers\nio.println(helpers.inc(41))\n", "proj/utils/helpers.aelys": inc}, "proj/main.aelys")
+    # names the VM registers on its own: no `needs` at all
+    add("builtin-print", {"main.aelys": "fn sq(x) { return x * x }\nprint(sq(7))\n"})
+    add("builtin-print-and-module", {"main.aelys": "needs helpers\nprint(helpers.inc(41))\n", "helpers.aelys": inc})
+    # a run-time error: kind, message and position of the report
+    add("runtime-error-in-function", {"main.aelys": io + "fn d(a, b) {\n    return a / b\n}\nio.println(d(1, 0))\n"})
+    add("runtime-error-in-module", {"main.aelys": io + "needs helpers\nio.println(helpers.d(1, 0))\n", "helpers.aelys": "pub fn d(a, b) {\n    return a / b\n}\n"})
+    return L
+
+
+def report_lines(stderr, entry_stem):
+    """the parts of a run-time report that do not depend on having the source text: error line, position, stack frames"""
+    out = []
+    for l in stderr.splitlines():
+        t = l.strip()
+        if t.startswith(("Error:", "error", "-->")) or re.match(r"^\S.* \(\S+:\d+\)$", t):
+            out.append(re.sub(re.escape(entry_stem) + r"\d?\.(avbc|aasm|aelys)", entry_stem + ".*", t))
+    return out
+
+
 def multi_file_cases(ctx, wd):
-    """corpus/C08/<dir>/main.aelys with its modules: source run vs compiled + reloaded, through the CLI"""
+    """multi-file programs through the CLI: `run source` vs `compile` + `run file.avbc` and `asm` + `run file.aasm`;
+    corpus/C08/<dir>/main.aelys projects and the generated layouts of project_layouts()"""
     cli = cli_build(ctx)
     cd = os.path.join(vlib.VERIF, "corpus", "C08")
-    if not cli or not os.path.isdir(cd):
+    if not cli:
         return
     import shutil
-    for name in sorted(os.listdir(cd)):
+    projects = []
+    for name in sorted(os.listdir(cd)) if os.path.isdir(cd) else []:
         src = os.path.join(cd, name)
-        if not os.path.isdir(src) or not os.path.exists(os.path.join(src, "main.aelys")):
-            continue
+        if os.path.isdir(src) and os.path.exists(os.path.join(src, "main.aelys")):
+            files = {}
+            for root, _, fs in os.walk(src):
+                for f in fs:
+                    q = os.path.join(root, f)
+                    files[os.path.relpath(q, src)] = open(q, encoding="utf-8").read()
+            projects.append(("corpus-" + name, files, "main.aelys", "."))
+    projects += project_layouts()
+    stats = collections.Counter()
+    found = {}
+    for name, files, entry, cwd in projects:
         dst = os.path.join(wd, "mf_" + name)
         shutil.rmtree(dst, ignore_errors=True)
-        shutil.copytree(src, dst)
+        for rel, text in files.items():
+            os.makedirs(os.path.dirname(os.path.join(dst, rel)) or dst, exist_ok=True)
+            open(os.path.join(dst, rel), "w", encoding="utf-8").write(text)
+        entry = entry.replace("{abs}", dst)
+        stem = entry[:-len(".aelys")]
+        prog = files.get(os.path.normpath(os.path.join(cwd, entry)) if not os.path.isabs(entry) else os.path.relpath(entry, dst), "")
 
         def run(args):
-            q = subprocess.run([cli] + args, stdout=subprocess.PIPE, stderr=subprocess.PIPE, timeout=60, cwd=dst)
+            q = subprocess.run([cli] + args, stdout=subprocess.PIPE, stderr=subprocess.PIPE, timeout=60, cwd=os.path.join(dst, cwd))
             return q.returncode, q.stdout.decode("utf-8", "replace"), q.stderr.decode("utf-8", "replace")
         for opt in (0, 2):
-            base = run(["run", f"-O{opt}", "main.aelys"])
-            c = run(["compile", f"-O{opt}", "main.aelys", "-o", f"main{opt}.avbc"])
-            r = run(["run", f"main{opt}.avbc"]) if c[0] == 0 else c
-            ctx.cov["evaluations"] += 2
-            if r[:2] != base[:2]:
-                prog = open(os.path.join(src, "main.aelys")).read()
-                sig = "avbc:module-alias-not-resolvable" if alias_missing(prog, r[2]) else f"cli:avbc:multi-file-differs:{name}"
-                ctx.violation(sig, "a multi-file program behaves differently after `aelys compile` + `aelys run file.avbc`",
-                              {"case": name, "opt": opt, "run_source": base, "reloaded": r, "program": prog})
+            base = run(["run", f"-O{opt}", entry])
+            for route, make, saved in (("avbc", ["compile", f"-O{opt}", entry, "-o", f"{stem}{opt}.avbc"], f"{stem}{opt}.avbc"),
+                                       ("aasm", ["asm", f"-O{opt}", entry, "-o", f"{stem}{opt}.aasm"], f"{stem}{opt}.aasm")):
+                c = run(make)
+                r = run(["run", saved]) if c[0] == 0 else c
+                ctx.cov["evaluations"] += 2
+                stats[route] += 1
+                sig = None
+                miss = re.search(r"module not found: '([\w.]+)'", r[2])
+                if c[0] != 0 and base[0] == 0:
+                    code = re.search(r"error\[(E\d+)\]", c[2])
+                    sig = f"cli:{route}:cannot-save-a-program-that-runs:{code.group(1) if code else 'error'}"
+                elif r[:2] != base[:2]:
+                    if alias_missing(prog, r[2]):
+                        sig = f"{route}:module-alias-not-resolvable"
+                    elif miss and re.search(r"needs\s+(?:\w+\s*(?:,\s*\w+\s*)*from\s+)?(?!std\.)(\w+\.)+" + re.escape(miss.group(1)) + r"\b", "\n".join(files.values())):
+                        sig = f"{route}:module-path-not-resolvable"       # `needs utils.helpers`: the saved program asks for `helpers`
+                    elif (u := re.search(r"undefined variable '(\w+)", r[2])) and re.search(r"needs\s+[\w\s,]*\b" + re.escape(u.group(1)) + r"\b[\w\s,]*\sfrom\s+(?!std\.)", prog):
+                        sig = f"{route}:symbol-import-not-resolvable"     # `needs inc from helpers`: the saved global is just `inc`
+                    else:
+                        sig = f"cli:{route}:multi-file-differs:{name}"
+                elif base[0] != 0 and opt == 0 and report_lines(r[2], os.path.basename(stem)) != report_lines(base[2], os.path.basename(stem)):
+                    # -O0 keeps the line table in .avbc (higher levels strip it on purpose)
+                    sig = f"{route}:error-position-differs"
+                if sig:
+                    found.setdefault(sig, []).append(f"{name}@O{opt}")
+                    ctx.violation(sig, f"a program behaves differently after `aelys {make[0]}` + `aelys run file.{route}` (layout `{name}`)",
+                                  {"case": name, "opt": opt, "files": files, "entry": entry, "cwd": cwd, "make": make, "run_source": base, "saved_then_run": r,
+                                   "report_source": report_lines(base[2], os.path.basename(stem)), "report_saved": report_lines(r[2], os.path.basename(stem))})
+    ctx.cov["multi_file_projects"] = {"projects": len(projects), "routes": dict(stats), "layouts": [p[0] for p in projects], "differences": found}
 
 
 def run(ctx):
